@@ -10,6 +10,7 @@ AddClient/RemoveClients, pending changes, clock ticks).  The only hypothesis on 
 client (otherwise the uint32 counter itself would wrap).
 -/
 import FhVerif.Proofs.LB
+import FhVerif.Gen.LBGuard
 
 namespace Fh.Props.C40
 open Fh Fh.Model.LB Fh.Proofs.LB
@@ -79,6 +80,47 @@ theorem penalty_zero_after_last_timer (cfg : List (Nat × Int)) (evs : List Ev) 
   refine ⟨fun hnow d hd => ?_, fun ht => ?_⟩
   · have := h6 d hd; omega
   · rw [ht] at h3; simp only [List.length_nil] at h3; omega
+
+/-- The pairing of decrements with successful increments, pinned to the source (regenerated from lbclient.go on every
+    run): the only place that hands `decPenalty` to a timer is `lbClient.DoDeadline`, inside the THEN branch of an `if`
+    whose condition has `c.incPenalty()` as a positive conjunct; `incPenalty()` is called nowhere else and its result is
+    never discarded; the only direct `decPenalty()` call is the undo inside `incPenalty`, which then returns false.
+    This is why the model has `failArm` (arm a timer) only for callers whose increment stood, and no step that arms a
+    timer after an undone increment. -/
+theorem decrement_scheduled_only_after_successful_increment :
+    Gen.lbScheduleSites = [("DoDeadline", true)] ∧ Gen.lbIncPenaltyCalls = [("DoDeadline", true)] ∧
+    Gen.lbDecDirectCalls = ["incPenalty"] ∧ Gen.lbUndoReturnsFalse = true := by decide
+
+/-- No underflow: whenever a timer fires — in any reachable state of any interleaving — the uint32 penalty is at least
+    1 and goes down by exactly one (it never wraps to 2^32-1); pending decrements (armed timers) never exceed the
+    penalty. -/
+theorem timer_never_underflows (cfg : List (Nat × Int)) (evs : List Ev) (s : State)
+    (hb : BoundedRun (State.start cfg) evs) (hr : run (State.start cfg) evs = some s)
+    (i k : Nat) (s' : State) (h : step s (.timer i k) = some s') :
+    ∃ c c', s.cs[i]? = some c ∧ s'.cs[i]? = some c' ∧ c.timers.length ≤ c.penalty ∧
+      c'.penalty + 1 = c.penalty ∧ c'.timers.length + 1 = c.timers.length := by
+  have hbd := bounded_end evs _ s hb hr
+  simp only [step, updClient] at h
+  cases hc : s.cs[i]? with
+  | none => simp [hc] at h
+  | some c =>
+    simp only [hc] at h
+    have hmem : c ∈ s.cs := List.mem_of_getElem? hc
+    obtain ⟨h1, h2⟩ := penalty_accounting cfg evs s hb hr c hmem
+    have hB := hbd c hmem
+    have hi : i < s.cs.length := (List.getElem?_eq_some_iff.mp hc).1
+    cases hk : c.timers[k]? with
+    | none => simp [hk] at h
+    | some due =>
+      by_cases hdue : due ≤ s.now
+      · simp only [hk, hdue, if_true, Option.some.injEq] at h
+        subst h
+        have hlt : k < c.timers.length := (List.getElem?_eq_some_iff.mp hk).1
+        have hd : decU32 c.penalty = c.penalty - 1 := decU32_pos (by omega) (by omega)
+        refine ⟨c, { c with timers := c.timers.eraseIdx k, penalty := decU32 c.penalty }, rfl, by simp [hi], by omega, ?_, ?_⟩
+        · simp only [hd]; omega
+        · simp only [List.length_eraseIdx, hlt, if_true]; omega
+      · simp [hk, hdue] at h
 
 /-- Concurrent failures on one client with no timer firing in between, in ANY interleaving of the callers'
     AddUint32 / arm / undo steps: once they have all returned, exactly min(#failures, maxPenalty) of them were
